@@ -90,6 +90,21 @@ func TestVerifC03API(t *testing.T) {
 				exec(fmt.Sprintf("Set(%d, v=%d)", c, rng.Intn(50)-5))
 			}
 		}
+		if rng.Bool() {
+			// a dense row that stays a bitmap container (every other column, > 4096 of them), so that results
+			// derived from it after a snapshot come from mapped storage
+			req := &pilosa.ImportRequest{Index: index, Field: "f", Shard: 0}
+			rowD := uint64(rng.Intn(3))
+			for k := 0; k < 4097+rng.Intn(2000); k++ {
+				req.RowIDs = append(req.RowIDs, rowD)
+				req.ColumnIDs = append(req.ColumnIDs, uint64(2*k))
+			}
+			ops = append(ops, fmt.Sprintf("Import(f row %d, %d alternating columns)", rowD, len(req.RowIDs)))
+			if err := m.API.Import(ctx, req); err != nil {
+				r.Fail("query-error", id, "dense import: "+err.Error(), wit())
+				return
+			}
+		}
 		var held []*c03apiHeld
 		check := func(stage string) bool {
 			for _, h := range held {
